@@ -81,7 +81,7 @@ def _special(item):
                 m.add(mods[(k + 1) % n](p=m.p), name="child")
             top = mods[0]
         elif kind == "anon":
-            leaf = h.Module()  # never named
+            leaf = h.Module() if n == 0 else h.Module(name="")  # never named / named with the empty string
             leaf.p = h.Port()
             top = leaf
         elif kind == "clash_parent_child":
@@ -90,6 +90,19 @@ def _special(item):
             top = h.Module(name="Same")
             top.p = h.Port()
             top.ia = a(p=top.p)
+        elif kind == "clash_ext":
+            # two different external modules under one qualified name: same port names, but one port wider (n=0), or the
+            # same ports and another spice type (n=1)
+            from hdl21.external_module import SpiceType
+
+            e1 = h.ExternalModule(name="ext_same", domain="lib", port_list=[h.Port(name="p"), h.Port(name="n")], paramtype=dict)
+            e2 = h.ExternalModule(name="ext_same", domain="lib", port_list=[h.Port(name="p"), h.Port(name="n", width=(2 if n == 0 else 1))], paramtype=dict,
+                                  **({} if n == 0 else dict(spicetype=SpiceType.RESISTOR)))
+            top = h.Module(name="ClashExtTop")
+            top.s, top.t, top.w2 = h.Signal(), h.Signal(), h.Signal(width=2)
+            top.u1 = e1(dict(k=1))(p=top.s, n=top.t)
+            top.u2 = e2(dict(k=1))(p=top.s, n=(top.w2 if n == 0 else top.t))
+            top.tie = h.R(r=1)(p=top.w2[0], n=top.w2[1])
         elif kind == "clash":
             a = h.Module(name="Same")
             a.p = h.Port()
@@ -152,7 +165,7 @@ def run(ctx):
             ctx.outcome(cls + ":" + ("returned" if bad else "raised"))
             if bad:
                 ctx.violation(dict(fault=cls, reason=reason, family=fname, entries=",".join(sorted(bad))), dict(family=fam, fault=cls, site=site, design=d2), f"{bad} returned for a design that is ill-formed ({reason}) at {site}")
-    specials = [(k, n, depth, e) for k, ns in (("cycle", (1, 2, 3)), ("anon", (0,)), ("clash", (0,)), ("clash_parent_child", (0,))) for n in ns for depth in (0, 1, 2) for e in ("elaborate", "to_proto", "netlist")]
+    specials = [(k, n, depth, e) for k, ns in (("cycle", (1, 2, 3)), ("anon", (0, 1)), ("clash", (0,)), ("clash_parent_child", (0,)), ("clash_ext", (0, 1))) for n in ns for depth in (0, 1, 2) for e in ("elaborate", "to_proto", "netlist")]
     for sp in specials:
         r = _special(sp)
         ctx.count(states=1, transitions=2, traces_validated_against_impl=1)
